@@ -21,6 +21,8 @@ namespace Nuts.C16
 
 structure Cred where
   exp : Option Nat
+  /-- the credential has an `id` (`credential.ID != nil`): `CredentialStore.Store` keys the record by it -/
+  hasId : Bool := true
   deriving DecidableEq, Repr, Inhabited
 
 /-- verdict of `PresentationDefinition.Match` on the presentation's credentials -/
@@ -103,6 +105,8 @@ def Store.add (s : Store) (now : Nat) (vp : VP) (seed ts fresh : Nat) : Store ×
     | none => (s1, .panic "storePresentation:presentation.ID")
     | some id =>
       if vp.jwt = false then (s1, .panic "storePresentation:presentation.JWT()") else
+      -- storePresentation refuses a credential without id (it used to dereference the nil id: fix in /repo)
+      if vp.creds.any (fun c => !c.hasId) then (s1, .err "cred-no-id") else
       -- a missing `exp` claim is the zero time.Time whose Unix() is negative: below every clock value, like 0
       let exp := match vp.exp with | some e => e | none => 0
       let seed' := if ts = 0 then (if s1.seed = 0 then (if seed = 0 then fresh else seed) else s1.seed) else seed
@@ -134,7 +138,7 @@ def Store.rowsAfter (s : Store) (after : Nat) : List Row :=
 def checkOrder : List String :=
   ["format", "no-id", "aud", "no-exp", "too-long", "signer", "did-method", "branch:retraction", "verify"]
 def retractionCheckOrder : List String := ["retract-creds", "retract-jti", "signer", "retract-unknown"]
-def registrationCheckOrder : List String := ["cred-exp", "pex-nomatch", "pex-partial"]
+def registrationCheckOrder : List String := ["cred-no-id", "cred-exp", "pex-nomatch", "pex-partial"]
 
 /-- `validateRetraction` -/
 def validateRetraction (s : Store) (subj : String) (vp : VP) : Res Unit :=
@@ -153,6 +157,7 @@ def Cred.expiresBefore (c : Cred) (exp : Nat) : Bool :=
 
 /-- `validateRegistration` -/
 def validateRegistration (exp : Nat) (vp : VP) : Res Unit :=
+  if vp.creds.any (fun c => !c.hasId) then .err "cred-no-id" else
   if vp.creds.any (fun c => c.expiresBefore exp) then .err "cred-exp" else
   match vp.pex with
   | .err => .err "pex-nomatch"
